@@ -1,8 +1,7 @@
 // Package vsync mirrors the API of package sync. Mutex and RWMutex are
 // scheduling points of the controlled scheduler when one is active and plain
-// sync primitives otherwise. The RWMutex model is deliberately more permissive
-// than Go's (a waiting writer does not block new readers): explored
-// behaviours are a superset of the real ones.
+// sync primitives otherwise. The RWMutex model is writer-preferring like Go's: a
+// reader arriving after a writer called Lock waits for that writer's Unlock.
 package vsync
 
 import (
@@ -12,11 +11,11 @@ import (
 )
 
 type (
-	Once      = sync.Once
-	Pool      = sync.Pool
-	Map       = sync.Map
-	Cond      = sync.Cond
-	Locker    = sync.Locker
+	Once   = sync.Once
+	Pool   = sync.Pool
+	Map    = sync.Map
+	Cond   = sync.Cond
+	Locker = sync.Locker
 )
 
 func NewCond(l Locker) *Cond { return sync.NewCond(l) }
@@ -68,9 +67,16 @@ func (m *Mutex) Unlock() {
 }
 
 type RWMutex struct {
-	real    sync.RWMutex
+	real sync.RWMutex
+	// model of Go's writer-preferring RWMutex under the controlled scheduler:
+	// pending: a writer has announced itself (holds the writers' mutex): new readers wait behind it
+	// writer:  that writer has the lock (all earlier readers have left)
+	// waiting: readers parked behind the pending writer; its Unlock admits them all at once (gen changes)
+	pending bool
 	writer  bool
 	readers int
+	waiting int
+	gen     int
 }
 
 func (m *RWMutex) Lock() {
@@ -80,8 +86,12 @@ func (m *RWMutex) Lock() {
 		return
 	}
 	s.Yield("Lock")
-	for m.writer || m.readers > 0 {
+	for m.pending {
 		s.Block(m, "Lock(blocked)")
+	}
+	m.pending = true
+	for m.readers > 0 {
+		s.Block(m, "Lock(readers leaving)")
 	}
 	m.writer = true
 }
@@ -92,9 +102,10 @@ func (m *RWMutex) TryLock() bool {
 		return m.real.TryLock()
 	}
 	s.Yield("TryLock")
-	if m.writer || m.readers > 0 {
+	if m.pending || m.readers > 0 {
 		return false
 	}
+	m.pending = true
 	m.writer = true
 	return true
 }
@@ -109,6 +120,10 @@ func (m *RWMutex) Unlock() {
 		panic("sync: Unlock of unlocked RWMutex")
 	}
 	m.writer = false
+	m.pending = false
+	m.readers += m.waiting
+	m.waiting = 0
+	m.gen++
 	s.Unblock(m)
 }
 
@@ -119,8 +134,15 @@ func (m *RWMutex) RLock() {
 		return
 	}
 	s.Yield("RLock")
-	for m.writer {
-		s.Block(m, "RLock(blocked)")
+	if m.pending {
+		// as in Go: a reader arriving after a writer announced itself waits for that writer's Unlock,
+		// even if it already holds a read lock (recursive read locking deadlocks)
+		m.waiting++
+		g := m.gen
+		for m.gen == g {
+			s.Block(m, "RLock(blocked)")
+		}
+		return
 	}
 	m.readers++
 }
@@ -131,7 +153,7 @@ func (m *RWMutex) TryRLock() bool {
 		return m.real.TryRLock()
 	}
 	s.Yield("TryRLock")
-	if m.writer {
+	if m.pending {
 		return false
 	}
 	m.readers++
